@@ -28,11 +28,16 @@ pub struct ProcEnv {
     pub clock_tz_hours_west: Option<i8>,
     /// Seconds added to the process's instant (histories keep the clock monotone across the runs of one day).
     pub now_shift: i64,
+    /// Some(id): this "run" happens inside a long-lived process (the web application: one page, many
+    /// recalculations) - runs with the same id execute one after the other on the SAME thread, so
+    /// statics, thread-locals and whatever else outlives a run inside a process is shared by them.
+    /// A run with another id (or None) ends the session: its thread exits.
+    pub session: Option<u64>,
 }
 
 impl ProcEnv {
     pub fn new(hash_seed: u64, today: Date) -> ProcEnv {
-        ProcEnv { hash_seed, today, knobs: Knobs::default(), fs_faults: FsFaults::default(), clock_tz_hours_west: None, now_shift: 0 }
+        ProcEnv { hash_seed, today, knobs: Knobs::default(), fs_faults: FsFaults::default(), clock_tz_hours_west: None, now_shift: 0, session: None }
     }
 
     /// Seconds since local midnight of `today` at the process's instant.
@@ -119,42 +124,65 @@ where
         }
         unsafe { tzset() };
     }
-    let (done_tx, done_rx) = std::sync::mpsc::channel::<()>();
     crate::interpose::mark_driver_thread();
     crate::interpose::set_process_running(true);
-    let handle = std::thread::Builder::new()
-        .name("simproc".into())
-        .stack_size(16 << 20)
-        .spawn(move || {
-            set_in_sim(true);
-            if !use_clock {
-                acb::util::date::set_todays_date_for_test(today);
+    let body = move || {
+        set_in_sim(true);
+        if !use_clock {
+            acb::util::date::set_todays_date_for_test(today);
+        }
+        let r = catch_unwind(AssertUnwindSafe(f));
+        let _ = std::io::stdout().flush();
+        let _ = std::io::stderr().flush();
+        set_in_sim(false);
+        r.map_err(|e| {
+            if let Some(s) = e.downcast_ref::<&str>() {
+                s.to_string()
+            } else if let Some(s) = e.downcast_ref::<String>() {
+                s.clone()
+            } else {
+                "panic (non-string payload)".to_string()
             }
-            let r = catch_unwind(AssertUnwindSafe(f));
-            let _ = std::io::stdout().flush();
-            let _ = std::io::stderr().flush();
-            set_in_sim(false);
-            let _ = done_tx.send(());
-            r.map_err(|e| {
-                if let Some(s) = e.downcast_ref::<&str>() {
-                    s.to_string()
-                } else if let Some(s) = e.downcast_ref::<String>() {
-                    s.clone()
-                } else {
-                    "panic (non-string payload)".to_string()
-                }
-            })
         })
-        .expect("spawn simulated process");
-    // A simulated process takes ~0.1 ms. One that has not finished after SIM_PROCESS_TIMEOUT
-    // of real time is hung (the thread cannot be killed, so the OS process reports and exits).
-    if done_rx.recv_timeout(SIM_PROCESS_TIMEOUT).is_err() && !handle.is_finished() {
-        crate::interpose::set_process_running(false);
-        crate::on_simulated_process_hang();
-    }
-    let result = match handle.join() {
-        Ok(r) => r,
-        Err(_) => Err("simulated process thread died".to_string()),
+    };
+    let result: Result<T, String> = match env.session {
+        None => {
+            end_session();
+            let (done_tx, done_rx) = std::sync::mpsc::channel::<()>();
+            let handle = std::thread::Builder::new()
+                .name("simproc".into())
+                .stack_size(16 << 20)
+                .spawn(move || {
+                    let r = body();
+                    let _ = done_tx.send(());
+                    r
+                })
+                .expect("spawn simulated process");
+            // A simulated process takes ~0.1 ms. One that has not finished after SIM_PROCESS_TIMEOUT
+            // of real time is hung (the thread cannot be killed, so the OS process reports and exits).
+            if done_rx.recv_timeout(SIM_PROCESS_TIMEOUT).is_err() && !handle.is_finished() {
+                crate::interpose::set_process_running(false);
+                crate::on_simulated_process_hang();
+            }
+            match handle.join() {
+                Ok(r) => r,
+                Err(_) => Err("simulated process thread died".to_string()),
+            }
+        }
+        Some(id) => {
+            let (res_tx, res_rx) = std::sync::mpsc::channel::<Result<T, String>>();
+            let job: Job = Box::new(move || {
+                let _ = res_tx.send(body());
+            });
+            session_submit(id, job);
+            match res_rx.recv_timeout(SIM_PROCESS_TIMEOUT) {
+                Ok(r) => r,
+                Err(_) => {
+                    crate::interpose::set_process_running(false);
+                    crate::on_simulated_process_hang();
+                }
+            }
+        }
     };
     crate::interpose::set_process_running(false);
     with_world(|w| {
@@ -174,6 +202,50 @@ where
             unmodelled: std::mem::take(&mut w.unmodelled),
         }
     })
+}
+
+type Job = Box<dyn FnOnce() + Send + 'static>;
+
+struct Session {
+    id: u64,
+    tx: std::sync::mpsc::Sender<Job>,
+    handle: std::thread::JoinHandle<()>,
+}
+
+thread_local! {
+    /// The driver thread's current long-lived simulated process, if any.
+    static SESSION: std::cell::RefCell<Option<Session>> = const { std::cell::RefCell::new(None) };
+}
+
+/// The long-lived simulated process (if any) exits.
+pub fn end_session() {
+    if let Some(s) = SESSION.with(|c| c.borrow_mut().take()) {
+        drop(s.tx);
+        let _ = s.handle.join();
+    }
+}
+
+fn session_submit(id: u64, job: Job) {
+    let same = SESSION.with(|c| c.borrow().as_ref().map(|s| s.id == id).unwrap_or(false));
+    if !same {
+        end_session();
+        let (tx, rx) = std::sync::mpsc::channel::<Job>();
+        let handle = std::thread::Builder::new()
+            .name("simproc-session".into())
+            .stack_size(16 << 20)
+            .spawn(move || {
+                while let Ok(job) = rx.recv() {
+                    job();
+                }
+            })
+            .expect("spawn simulated long-lived process");
+        SESSION.with(|c| *c.borrow_mut() = Some(Session { id, tx, handle }));
+    }
+    SESSION.with(|c| {
+        if let Some(s) = c.borrow().as_ref() {
+            let _ = s.tx.send(job);
+        }
+    });
 }
 
 /// The library's async fns normally never wait on anything in simulation (the transport answers
